@@ -70,12 +70,12 @@ class Runner:
         k = op["op"]
         seq = self.seq
         V = lambda x: objs.ev(x, e)  # noqa: E731
-        kwstyle = op.get("style") == "kw"
+        self._names = None
 
         def call(fn, pos: list, names: list[str], opt: dict):
-            """pos: required values; names: their keyword names; opt: optional name->value (only if present)."""
-            if kwstyle:
-                return fn, (), {**dict(zip(names, pos)), **opt}
+            """pos: required values; names: their keyword names; opt: optional name->value (only if present).
+            Canonical form (required positional, optional by keyword); step() restyles the actual call."""
+            self._names = names
             return fn, tuple(pos), dict(opt)
 
         if k == "declare_channel":
@@ -192,6 +192,30 @@ class Runner:
             return d, (), {}
         raise ValueError(f"unknown op {k}")
 
+    def restyle(self, fn, args: tuple, kwargs: dict, style) -> tuple[tuple, dict]:
+        """The same call written the way a user might: everything by keyword ('kw'), or the optional arguments
+        positionally too ('pos': in signature order, documented defaults filled in for skipped ones)."""
+        if style == "kw" and self._names is not None:
+            return (), {**dict(zip(self._names, args)), **kwargs}
+        if style == "pos" and self._names is not None and kwargs:
+            import inspect
+            try:
+                sig = inspect.signature(fn)
+                ba = sig.bind(*args, **kwargs)
+            except (TypeError, ValueError):
+                return args, kwargs
+            params = list(sig.parameters.values())
+            given = [i for i, p in enumerate(params) if p.name in ba.arguments]
+            last = max(given)
+            head = params[:last + 1]
+            if any(p.kind is not inspect.Parameter.POSITIONAL_OR_KEYWORD for p in head):
+                return args, kwargs
+            if any(p.name not in ba.arguments and p.default is inspect.Parameter.empty for p in head):
+                return args, kwargs
+            self.ctx.count("calls_with_positional_optional_arguments")
+            return tuple(ba.arguments[p.name] if p.name in ba.arguments else p.default for p in head), {}
+        return args, kwargs
+
     # -- one step -----------------------------------------------------------------
     def step(self, op: dict) -> Event:
         self.prog["ops"].append(op)
@@ -210,11 +234,12 @@ class Runner:
         name = op["op"]
         for m in self.monitors:
             m.before(self, op, name, args, kwargs, pre)
+        cargs, ckwargs = self.restyle(fn, args, kwargs, op.get("style"))
         exc = ret = None
         with warnings.catch_warnings(record=True) as w:
             warnings.simplefilter("always")
             try:
-                ret = fn(*args, **kwargs)
+                ret = fn(*cargs, **ckwargs)
             except Exception as e:
                 exc = e
         post = snapshot(self.seq)
